@@ -33,25 +33,60 @@ type WriteRec struct {
 // ioEnv is the simulated I/O of one run.
 type ioEnv struct {
 	faults   []Fault
-	fired    map[string]int
+	firedN   [8]int
 	writes   []WriteRec
 	nOut     int // Write calls on "out"
 	nFiles   int // Write calls on created files
 	nCreate  int
 	out      bytes.Buffer
-	stderr   bytes.Buffer
+	stderrN  int
 	files    map[string]*bytes.Buffer
 	order    []string
 	dirs     []string
 	inputs   map[string][]byte
 	chunk    int
-	stickyOn map[string]bool
-	closed   map[string]int
+	stickyOut, stickyFiles bool
+	nClosed  int
 	splitLine, splitCRLF int
 }
 
 func newIOEnv(faults []Fault, chunk int) *ioEnv {
-	return &ioEnv{faults: faults, fired: map[string]int{}, files: map[string]*bytes.Buffer{}, inputs: map[string][]byte{}, chunk: chunk, stickyOn: map[string]bool{}, closed: map[string]int{}}
+	return &ioEnv{faults: faults, files: map[string]*bytes.Buffer{}, inputs: map[string][]byte{}, chunk: chunk, writes: make([]WriteRec, 0, 256)}
+}
+
+// The simulated I/O objects are shared by all simulated goroutines of a run, which the simulator
+// executes strictly one at a time; like simrt they are therefore excluded from race
+// instrumentation and avoid maps and (where several goroutines write) growing slices.
+
+var faultKinds = [...]string{"write_error_once", "write_error_sticky", "short_write", "create_error", "read_error", "truncate"}
+
+//go:norace
+func (e *ioEnv) fire(kind string) {
+	for i, k := range faultKinds {
+		if k == kind {
+			e.firedN[i]++
+		}
+	}
+}
+
+func (e *ioEnv) firedMap() map[string]int {
+	m := map[string]int{}
+	for i, k := range faultKinds {
+		if e.firedN[i] > 0 {
+			m[k] = e.firedN[i]
+		}
+	}
+	return m
+}
+
+var stderrArena [1 << 16]byte
+
+//go:norace
+func (e *ioEnv) sticky(dest string) *bool {
+	if dest == "out" {
+		return &e.stickyOut
+	}
+	return &e.stickyFiles
 }
 
 // simWriter is a fault-injectable destination; every Write is a visible operation.
@@ -61,6 +96,7 @@ type simWriter struct {
 	buf  *bytes.Buffer
 }
 
+//go:norace
 func (w *simWriter) Write(p []byte) (int, error) {
 	simrt.Yield("write " + w.dest)
 	e := w.env
@@ -73,9 +109,9 @@ func (w *simWriter) Write(p []byte) (int, error) {
 		k = e.nFiles
 	}
 	rec := WriteRec{Dest: w.dest, Len: len(p), Ret: len(p)}
-	if e.stickyOn[w.dest] {
+	if *e.sticky(w.dest) {
 		rec.Ret, rec.Err, rec.Fault = 0, true, "write_error_sticky"
-		e.fired["write_error_sticky"]++
+		e.fire("write_error_sticky")
 	} else {
 		for _, f := range e.faults {
 			if f.Dest != w.dest || f.K != k {
@@ -86,13 +122,13 @@ func (w *simWriter) Write(p []byte) (int, error) {
 				rec.Ret, rec.Err, rec.Fault = 0, true, f.Kind
 			case "write_error_sticky":
 				rec.Ret, rec.Err, rec.Fault = 0, true, f.Kind
-				e.stickyOn[w.dest] = true
+				*e.sticky(w.dest) = true
 			case "short_write":
 				rec.Ret, rec.Err, rec.Fault = len(p)/2, true, f.Kind
 			default:
 				continue
 			}
-			e.fired[f.Kind]++
+			e.fire(f.Kind)
 			break
 		}
 	}
@@ -116,6 +152,7 @@ type simReader struct {
 	errAt int // -1: none
 }
 
+//go:norace
 func (e *ioEnv) reader(name string, data []byte) *simReader {
 	r := &simReader{env: e, name: name, data: data, errAt: -1}
 	for _, f := range e.faults {
@@ -126,7 +163,7 @@ func (e *ioEnv) reader(name string, data []byte) *simReader {
 		case "truncate":
 			if f.K < len(r.data) {
 				r.data = r.data[:f.K]
-				e.fired["truncate"]++
+				e.fire("truncate")
 			}
 		case "read_error":
 			if f.K <= len(r.data) {
@@ -137,6 +174,7 @@ func (e *ioEnv) reader(name string, data []byte) *simReader {
 	return r
 }
 
+//go:norace
 func (r *simReader) Read(p []byte) (int, error) {
 	simrt.Yield("read " + r.name)
 	if len(p) == 0 {
@@ -147,7 +185,7 @@ func (r *simReader) Read(p []byte) (int, error) {
 		limit = r.errAt
 	}
 	if r.errAt >= 0 && r.pos >= r.errAt {
-		r.env.fired["read_error"]++
+		r.env.fire("read_error")
 		return 0, errInjectedRead
 	}
 	if r.pos >= limit {
@@ -198,6 +236,7 @@ func (r *simReader) Read(p []byte) (int, error) {
 	return n, nil
 }
 
+//go:norace
 func (r *simReader) Seek(off int64, whence int) (int64, error) {
 	switch whence {
 	case io.SeekStart:
@@ -214,9 +253,11 @@ func (r *simReader) Seek(off int64, whence int) (int64, error) {
 	return int64(r.pos), nil
 }
 
+//go:norace
 func (r *simReader) Write(p []byte) (int, error) { return 0, os.ErrInvalid }
+//go:norace
 func (r *simReader) Close() error {
-	r.env.closed[r.name]++
+	r.env.nClosed++
 	return nil
 }
 
@@ -226,34 +267,45 @@ type outFile struct {
 	name string
 }
 
+//go:norace
 func (f *outFile) Read(p []byte) (int, error)  { return 0, os.ErrInvalid }
+//go:norace
 func (f *outFile) Write(p []byte) (int, error) { return f.w.Write(p) }
+//go:norace
 func (f *outFile) Close() error {
-	f.w.env.closed[f.name]++
+	f.w.env.nClosed++
 	return nil
 }
 
 type stdoutFile struct{ w simWriter }
 
+//go:norace
 func (f *stdoutFile) Read(p []byte) (int, error)  { return 0, os.ErrInvalid }
+//go:norace
 func (f *stdoutFile) Write(p []byte) (int, error) { return f.w.Write(p) }
+//go:norace
 func (f *stdoutFile) Close() error                { return nil }
 
 type stderrFile struct{ env *ioEnv }
 
+//go:norace
 func (f stderrFile) Read(p []byte) (int, error) { return 0, os.ErrInvalid }
+//go:norace
 func (f stderrFile) Write(p []byte) (int, error) {
-	if f.env.stderr.Len() < 1<<16 {
-		f.env.stderr.Write(p)
-	}
+	e := f.env
+	n := copy(stderrArena[e.stderrN:], p)
+	e.stderrN += n
 	return len(p), nil
 }
+//go:norace
 func (f stderrFile) Close() error { return nil }
 
 // simrt.FS implementation
 
+//go:norace
 func (e *ioEnv) outWriter() *simWriter { return &simWriter{env: e, dest: "out", buf: &e.out} }
 
+//go:norace
 func (e *ioEnv) Open(name string) (simrt.FileImpl, error) {
 	simrt.Yield("open " + name)
 	d, ok := e.inputs[name]
@@ -263,12 +315,13 @@ func (e *ioEnv) Open(name string) (simrt.FileImpl, error) {
 	return e.reader(name, d), nil
 }
 
+//go:norace
 func (e *ioEnv) Create(name string) (simrt.FileImpl, error) {
 	simrt.Yield("create " + name)
 	e.nCreate++
 	for _, f := range e.faults {
 		if f.Kind == "create_error" && f.K == e.nCreate {
-			e.fired["create_error"]++
+			e.fire("create_error")
 			return nil, errInjectedCreate
 		}
 	}
@@ -281,13 +334,17 @@ func (e *ioEnv) Create(name string) (simrt.FileImpl, error) {
 	return &outFile{w: simWriter{env: e, dest: dest, buf: b}, name: name}, nil
 }
 
+//go:norace
 func (e *ioEnv) MkdirAll(path string, perm os.FileMode) error {
 	e.dirs = append(e.dirs, path)
 	return nil
 }
 
+//go:norace
 func (e *ioEnv) Stdin() simrt.FileImpl {
 	return e.reader("stdin", e.inputs["stdin"])
 }
+//go:norace
 func (e *ioEnv) Stdout() simrt.FileImpl { return &stdoutFile{w: simWriter{env: e, dest: "out", buf: &e.out}} }
+//go:norace
 func (e *ioEnv) Stderr() simrt.FileImpl { return stderrFile{e} }
